@@ -24,7 +24,9 @@ CType  == {"none", "json", "text_utf8", "text_latin1", "text_unknown_charset", "
 \* charsets that are not ASCII-compatible (UTF-16, ISO-2022-JP) or that the WHATWG standard maps to the
 \* "replacement" decoder (always an error for a non-empty body); their bodies are encoding specific
 CTypeX == {"text_utf16le", "text_2022jp", "text_replacement"}
-Body   == {"empty", "ascii", "utf8", "invalid_utf8", "json_ok", "json_bad"}
+\* "json_trailing": a complete JSON document of the expected type FOLLOWED by more (a second document, a stray
+\* brace, appended markup): the body as a whole is not a JSON value
+Body   == {"empty", "ascii", "utf8", "invalid_utf8", "json_ok", "json_bad", "json_trailing"}
 Expect == {"bytes", "string", "json"}
 Shell  == {"ok", "err_url", "err_io", "err_timeout"}
 Hdrs   == {"none", "one", "repeated", "mixed_case"}
